@@ -42,6 +42,8 @@ def run(ctx):
         if variant is facts.AS_CONFIGURED:
             from rules import C05 as _c5
             G_ = prog.require_func(_c5.GEN)
+            from engine import inline as _inl
+            G_ = _inl.inlined(prog, G_)
             _c5.ds_failure_rule(chk, G_, G_.calls(_c5.DS_CALL), 'S6')
         summ = Summaries(cg)
         roots = common.entry_points(prog)
